@@ -7,11 +7,31 @@ _TMP = {}
 
 
 def _dir():
-    if 'd' not in _TMP or _TMP.get('pid') != os.getpid() and not os.path.isdir(_TMP['d']):
+    """the directory for the caller's own table files: $VERIF_TABLE_DIR (created and removed by the pass that uses these calls), else one per process"""
+    d = os.environ.get('VERIF_TABLE_DIR')
+    if d:
+        os.makedirs(d, exist_ok=True)
+        return d
+    if 'd' not in _TMP:
         _TMP['d'] = tempfile.mkdtemp(prefix='verif_tables.')
-        _TMP['pid'] = os.getpid()
         atexit.register(lambda d=_TMP['d'], p=os.getpid(): os.getpid() == p and shutil.rmtree(d, ignore_errors=True))
     return _TMP['d']
+
+
+class table_dir(object):
+    """with table_dir(): ...   one directory for this pass and its worker processes, removed afterwards"""
+    def __enter__(self):
+        self.d = tempfile.mkdtemp(prefix='verif_tables.')
+        self.old = os.environ.get('VERIF_TABLE_DIR')
+        os.environ['VERIF_TABLE_DIR'] = self.d
+        return self.d
+
+    def __exit__(self, *a):
+        if self.old is None:
+            os.environ.pop('VERIF_TABLE_DIR', None)
+        else:
+            os.environ['VERIF_TABLE_DIR'] = self.old
+        shutil.rmtree(self.d, ignore_errors=True)
 
 
 def custom_athlon_table():
@@ -19,7 +39,8 @@ def custom_athlon_table():
     src = os.path.join(common.REPO, 'athlib', 'wma', 'wma-athlons-data.json')
     dst = os.path.join(_dir(), 'house-athlons.json')
     if not os.path.exists(dst):
-        d = json.load(open(src))
+        with open(src) as f:
+            d = json.load(f)
 
         def damp(x):
             if isinstance(x, float) and 0 < x < 1.5:
@@ -29,7 +50,10 @@ def custom_athlon_table():
             if isinstance(x, dict):
                 return {k: damp(v) for k, v in x.items()}
             return x
-        json.dump(damp(d), open(dst, 'w'))
+        tmp = dst + '.%d' % os.getpid()
+        with open(tmp, 'w') as f:
+            json.dump(damp(d), f)
+        os.replace(tmp, dst)
     return dst
 
 
